@@ -44,6 +44,17 @@ Theorem others_raise :
 Proof. exact (conj plain_others (conj tls_others (conj tls_other_ssl timeout_raises))). Qed.
 Print Assumptions others_raise.
 
+(* THE CONFLATION, EXACTLY.  On the TLS recv/send handlers an OSError with errno n is treated as the
+   property demands (loss -> cutoff, every other errno -> propagates) for EVERY errno of the
+   platform except exactly the three whose number equals an SSL code the handler also tests
+   ex.args[0] against: 2 = ENOENT = SSL_ERROR_WANT_READ, 3 = ESRCH = SSL_ERROR_WANT_WRITE (taken
+   for would-block) and 8 = ENOEXEC = SSL_ERROR_EOF (taken for TLS EOF). *)
+Theorem tls_errno_conflation_is_exactly_the_ssl_codes : forall t n,
+  In t tls_sites -> In n all_errnos ->
+  action_eqb (classify t (oserr n)) (if memz n LOSS then Cutoff else Raise) = negb (memz n TLS_CODES).
+Proof. exact tls_conflation_exactly. Qed.
+Print Assumptions tls_errno_conflation_is_exactly_the_ssl_codes.
+
 (* datagram stack: a transient destination error on send re-queues the packet and blocks only
    that destination; on receive it yields "nothing received"; neither raises; every other errno
    propagates from both *)
